@@ -277,12 +277,38 @@ async def execute(net, hyg, plan):
                 s.peer.writer.write(line)
                 sent += 1
                 await asyncio.sleep(0.004)
+                if plan.get("then_quit") and tr.write_paused_at is not None:
+                    break       # the reply writer is blocked now: QUIT at once, well inside socket_timeout
             rest = tr.get_write_buffer_size()
             where = f"cfg {cfg} reply flood, peer silent with {rest} unsent reply bytes in the server's transport"
             t_stall = loop.time()
+            if plan.get("then_quit"):
+                # the peer's last word is QUIT (never read either): the session is over, its reply writer is blocked
+                s.peer.writer.write(b"QUIT\r\n")
+                where += " and a final QUIT"
+            if plan.get("then_read"):
+                # ... until the server has given the session up; then it reads everything after all, well inside socket_timeout:
+                # the closed transport flushes and finishes on its own, and whatever was armed to tear it down finds it gone
+                for _ in range(200):
+                    if tr.close_called_at is not None:
+                        break
+                    await asyncio.sleep(0.1)
+                s.peer.writer.transport.resume_reading()
+                drain = asyncio.ensure_future(s.peer.read_data(s.peer.reader, wait=3))
+                await asyncio.sleep(cfg["sock"] + 2.0 if cfg["sock"] else 5.0)
+                drain.cancel()
+                where += ", which the peer read after the session had been dropped"
             await asyncio.sleep(12.0)
             mon["linger_bound"] = mon.get("linger_bound", 0) + 1
             fired = True
+            if cfg["sock"] and tr.write_paused_at is not None and rest > 65536:
+                # the reply writer could not write since write_paused_at: given up socket_timeout later, whatever else goes on
+                limit_t = tr.write_paused_at + cfg["sock"] + EPS
+                if tr.close_called_at is None or tr.close_called_at > limit_t + 0.5:
+                    viol.append({"key": "not-released:control-write-blackbox",
+                                 "msg": f"{where}: replies could not be written since {tr.write_paused_at - 1000:.3f}, socket_timeout "
+                                        f"{cfg['sock']}: closed at {tr.close_called_at and round(tr.close_called_at - 1000, 3)}; "
+                                        f"Server.connections has {len(w.server.connections)} entries"})
             if cfg["idle"] or cfg["sock"]:
                 # (without idle_timeout a silent session whose reply writer is not blocked is legitimately kept)
                 if cfg["idle"] and tr.close_called_at is None:
@@ -375,6 +401,10 @@ def run_plan(plan):
     res, info = W.run(main, seed=plan.get("seed", 0), net_kwargs=dict(mss=1460, latency=LAT))
     if res is None:
         return W.failed(info, f"plan={plan}")
+    for e in info["hygiene"].serious_loop_errors():
+        if "TimeoutError" in str(e) or "never retrieved" in str(e.get("message", "")):
+            continue    # the time-outs under test surface in the dispatcher's own log, not here
+        res["violations"].append({"key": "exception-reached-loop", "msg": f"plan {plan}: {e}"})
     return res
 
 
@@ -459,8 +489,14 @@ def gen_cases(tier, seed):
                                                      "server_kwargs": {"write_speed_limit": 2000}, "seed": seed}})
     for idle in (None, 4):
         for sock in (3,):
-            for rest in (1, 500, 3000, 10000, 16384, 16500, 40000):
+            for rest in (1, 500, 3000, 10000, 16384, 16500, 40000, 70000, 120000):
                 cases.append({"kind": "single", "plan": {"kind": "rest", "cfg": {"idle": idle, "sock": sock, "wft": 1}, "rest": rest, "seed": seed}})
+                if rest in (500, 40000, 70000, 120000):
+                    cases.append({"kind": "single", "plan": {"kind": "rest", "cfg": {"idle": idle, "sock": sock, "wft": 1}, "rest": rest,
+                                                             "then_quit": True, "seed": seed}})
+                if idle and rest in (500, 16500, 40000):
+                    cases.append({"kind": "single", "plan": {"kind": "rest", "cfg": {"idle": idle, "sock": sock, "wft": 1}, "rest": rest,
+                                                             "then_read": True, "seed": seed}})
     # wait_future_timeout=None: the wait for the data connection is not limited
     for idle in (None, 4):
         for sock in (None, 3):
